@@ -191,6 +191,16 @@ func buildSource(r *Rng, data map[string]interface{}, mode int, opts []ucfg.Opti
 			return c10Source{}, false
 		}
 		return c10Source{cfg: c, from: map[string]interface{}{"l": []interface{}{"first", c}}, embedded: true, how: "child config in a list"}, true
+	case 5, 6: // a root config in a map, next to dotted keys that extend what it holds
+		c, err := ucfg.NewFrom(data, opts...)
+		if err != nil {
+			return c10Source{}, false
+		}
+		from := map[string]interface{}{"x": c, "x.zz": uint64(1)}
+		if mode == 6 {
+			from = map[string]interface{}{"x": c, "x.n.zz": "deep", "x.e": map[string]interface{}{"k": true}, "x.l.5": "far"}
+		}
+		return c10Source{cfg: c, from: from, embedded: true, how: "root config in a map, extended by dotted keys"}, true
 	default: // a root config in a struct field
 		c, err := ucfg.NewFrom(data, opts...)
 		if err != nil {
@@ -233,7 +243,7 @@ func genC10(g *Gen) {
 			dstData["r"] = map[string]interface{}{"k": uint64(1)} // a namespace where the source has a reference
 		}
 		pol := r.Intn(len(policyOpts))
-		mode := r.Intn(5)
+		mode := r.Intn(7)
 		g.Mark(map[string]interface{}{"src": encTree(srcData), "dst": encTree(dstData), "policy": policyOpts[pol].name, "mode": mode, "varexp": varexp})
 
 		src, ok := buildSource(r, srcData, mode, opts)
